@@ -280,6 +280,41 @@ def _dexpr(node, table, what, listy=False):
     return "(DExpr.display %s)" % _lean_list([table[o] for o in ops]), ops
 
 
+def _is_lazy_comp(v):
+    """{key: value() for key, value in kwargs.items()} – every callable called exactly once"""
+    if not (isinstance(v, ast.DictComp) and len(v.generators) == 1 and not v.generators[0].ifs
+            and not v.generators[0].is_async and _u(v.generators[0].iter) == "kwargs.items()"
+            and isinstance(v.generators[0].target, ast.Tuple) and len(v.generators[0].target.elts) == 2):
+        return False
+    kn, vn = [_u(e) for e in v.generators[0].target.elts]
+    return _u(v.key) == kn and _u(v.value) == vn + "()"
+
+
+def _lazy_stage(s):
+    """`if lazy: … kwargs = {k: v() for k, v in kwargs.items()}` or `kwargs = {…} if lazy else kwargs`; a statement
+    that rebinds kwargs under `lazy` in any other way is refused (fail closed)"""
+    if isinstance(s, ast.If) and _u(s.test) == "lazy" and not s.orelse:
+        hits = [x for x in s.body if isinstance(x, ast.Assign) and _u(x.targets[0]) == "kwargs"]
+        if not hits:
+            return False
+        if len(hits) != 1 or not _is_lazy_comp(hits[0].value):
+            raise Unsupported("_log: lazy evaluation of kwargs changed: " + _u(hits[0])[:80])
+        return True
+    if isinstance(s, ast.Assign) and _u(s.targets[0]) == "kwargs" and isinstance(s.value, ast.IfExp) \
+            and _u(s.value.test) == "lazy":
+        if not (_is_lazy_comp(s.value.body) and _u(s.value.orelse) == "kwargs"):
+            raise Unsupported("_log: lazy evaluation of kwargs changed: " + _u(s)[:80])
+        return True
+    return False
+
+
+def _record_stage(s):
+    """`if record: … kwargs.update(record=log_record)` (or `kwargs["record"] = log_record`)"""
+    if isinstance(s, ast.If) and _u(s.test) == "record" and not s.orelse and s.body:
+        return _u(s.body[-1]) in ("kwargs.update(record=log_record)", "kwargs['record'] = log_record")
+    return False
+
+
 def _no_mutation(fn, names, what):
     """no statement of fn mutates one of the named containers"""
     for node in ast.walk(fn):
@@ -605,23 +640,10 @@ def generate():
                     raise Unsupported("_log: core.patcher branch changed")
                 idx["Phase.corePatcher"] = i
                 guard_kind = "PatcherGuard.truthy" if _u(s.test) == "SELF._core.patcher" else "PatcherGuard.isNotNone"
-            elif isinstance(s, ast.If) and _u(s.test) == "lazy" and not s.orelse:
-                # `kwargs = {key: value() for key, value in kwargs.items()}` (each callable called exactly once)
-                for x in s.body:
-                    if isinstance(x, ast.Assign) and _u(x.targets[0]) == "kwargs":
-                        v = x.value
-                        ok = isinstance(v, ast.DictComp) and len(v.generators) == 1 and not v.generators[0].ifs \
-                            and _u(v.generators[0].iter) == "kwargs.items()" \
-                            and isinstance(v.generators[0].target, ast.Tuple) and len(v.generators[0].target.elts) == 2
-                        if ok:
-                            kn, vn = [_u(e) for e in v.generators[0].target.elts]
-                            ok = _u(v.key) == kn and _u(v.value) == vn + "()"
-                        if not ok:
-                            raise Unsupported("_log: lazy evaluation of kwargs changed: " + _u(x)[:80])
-                        idx["KwStage.lazyEval"] = i
-            elif isinstance(s, ast.If) and _u(s.test) == "record" and not s.orelse:
-                if s.body and _u(s.body[-1]) == "kwargs.update(record=log_record)":
-                    idx["KwStage.recordInject"] = i
+            elif _lazy_stage(s):
+                idx["KwStage.lazyEval"] = i
+            elif _record_stage(s):
+                idx["KwStage.recordInject"] = i
             elif isinstance(s, ast.For) and _u(s.iter) == "patchers":
                 if [_u(x) for x in s.body] != ["%s(log_record)" % _u(s.target)] or s.orelse:
                     raise Unsupported("_log: patchers loop changed")
